@@ -222,6 +222,8 @@ def _af_case(name, ir, assume=()):
 
 
 _AF_CASES = [
+    Case("params=1,no-wrap", {"intermediate_repr": _af_ir(1, "plain"), "emit_default_doc": False, "function_name": ("lit", "set_cli_args"), "function_type": ("lit", "static"),
+                              "wrap_description": False, "word_wrap": False, "docstring_format": ("lit", "rest")}),
     _af_case("params=2", _af_ir(2)),
     _af_case("params=0", _af_ir(0)),
     _af_case("params=1,return-plain", _af_ir(1, "plain")),
@@ -244,8 +246,11 @@ emit_argparse = Contract(
                note="C04: one add_argument statement per parameter, in the description's order, right after the description"),
         Clause("AF-return", "typeis(result.body[-1], 'Return') and len(result.body) == 3 + len(old_intermediate_repr['params'])",
                note="the function ends by returning the parser; nothing else is emitted"),
-        Clause("AF-return-plain", "result.body[-1].value.id == 'argument_parser'", when=["params=2", "params=0", "params=1,return-plain"],
+        Clause("AF-return-plain", "result.body[-1].value.id == 'argument_parser'", when=["params=2", "params=0", "params=1,return-plain", "params=1,no-wrap"],
                note="without a return default the parser alone is returned"),
+        Clause("AF-docstring-options", "log_docstring_n == 1 and ('word_wrap' in log_docstring_kwargs[0]) and log_docstring_kwargs[0]['word_wrap'] == word_wrap "
+                                       "and ('docstring_format' in log_docstring_kwargs[0]) and log_docstring_kwargs[0]['docstring_format'] == docstring_format",
+               note="C04 / C18: the generated function's own docstring is rendered with the caller's word_wrap and style (a return prose must not be re-flowed behind the caller's back)"),
         Clause("AF-frame", "unchanged(intermediate_repr, old_intermediate_repr)", note="C13: the caller's description is not modified"),
     ],
     canaries=["len(result.body) == 3"],
